@@ -167,12 +167,30 @@ def run(ctx):
         cases.append((ctx.work, "d%d" % k, pair_program(cur, tgt, allsites), ()))
         k += 1
     ctx.notes["drift_directed_programs"] = min(40, len(drift_pairs))
+    # like-named types of two packages, both used as map values / fields / list items (whatever is remembered per name must not mix them up)
+    cases.append((ctx.work, "likenamed", {
+        "p/v1/a.proto": 'syntax = "proto3";\npackage p.v1;\nmessage Item { string a = 1; }\nenum Kind { KIND_ZERO = 0; KIND_ONE = 1; }\n'
+                        "message Order { map<string, Item> items = 1; Item one = 2; repeated Item many = 3; map<int32, Kind> kinds = 4; }\n",
+        "p/v2/a.proto": 'syntax = "proto3";\npackage p.v2;\nmessage Item { int64 b = 1; bytes c = 2; }\nenum Kind { KIND_ZERO = 0; KIND_TWO = 2; }\n'
+                        "message Order { map<string, Item> items = 1; Item one = 2; repeated Item many = 3; map<int32, Kind> kinds = 4; }\n",
+        "p/both.proto": 'syntax = "proto3";\npackage p;\nimport "p/v1/a.proto";\nimport "p/v2/a.proto";\n'
+                        "message Both { p.v1.Order o1 = 1; p.v2.Order o2 = 2; map<string, p.v1.Item> m1 = 3; map<string, p.v2.Item> m2 = 4; "
+                        "oneof g { p.v1.Item i1 = 5; p.v2.Item i2 = 6; } }\n"}, ()))
+    # nested types whose names are lower-case or runs of capitals (the flattened class name and the reference must agree)
+    cases.append((ctx.work, "nestednames", {
+        "n/shapes.proto": 'syntax = "proto3";\npackage n;\nmessage Shape { message point { int32 x = 1; } enum kind { kind_zero = 0; kind_one = 1; } point p = 1; kind k = 2; }\n'
+                          "message ABC { message DEF { int32 v = 1; } DEF d = 1; }\nmessage FooX { message Y { message z_w { int32 v = 1; } z_w zw = 1; } Y y = 1; }\n"
+                          "message UserID { message IP { int32 v = 1; } IP ip = 1; }\n",
+        "n/m/user.proto": 'syntax = "proto3";\npackage n.m;\nimport "n/shapes.proto";\n'
+                          "message User { n.Shape.point sp = 1; n.ABC.DEF ad = 2; n.FooX.Y fy = 3; map<string, n.Shape.point> mp = 4; repeated n.FooX.Y.z_w zs = 5; "
+                          "n.Shape.kind k = 6; n.UserID.IP ip = 7; }\nservice S { rpc Get (n.Shape.point) returns (stream n.ABC.DEF); }\n"}, ()))
     # well-known types and the recorded collision / capitalised-package inputs
     cases.append((ctx.work, "wkt", {"w.proto": 'syntax = "proto3";\npackage w.x;\nimport "google/protobuf/empty.proto";\nimport "google/protobuf/any.proto";\n'
-                                     'import "google/protobuf/struct.proto";\nimport "google/protobuf/field_mask.proto";\n'
+                                     'import "google/protobuf/struct.proto";\nimport "google/protobuf/field_mask.proto";\nimport "google/protobuf/timestamp.proto";\nimport "google/protobuf/duration.proto";\nimport "google/protobuf/wrappers.proto";\n'
                                      "message W { google.protobuf.Empty e = 1; repeated google.protobuf.Any anys = 2; google.protobuf.Struct s = 3; "
                                      "google.protobuf.FieldMask fm = 4; map<string, google.protobuf.Value> vs = 5; }\n"
-                                     "service S { rpc Ping (google.protobuf.Empty) returns (google.protobuf.Empty); }\n"}, ()))
+                                     "service S { rpc Ping (google.protobuf.Empty) returns (google.protobuf.Empty); rpc Now (google.protobuf.Empty) returns (google.protobuf.Timestamp); "
+                                     "rpc Wait (google.protobuf.Duration) returns (stream google.protobuf.Timestamp); rpc Wrap (google.protobuf.Int32Value) returns (google.protobuf.StringValue); }\n"}, ()))
     cases.append((ctx.work, "collide", {"x0.proto": 'syntax = "proto3";\npackage x;\nimport "x/a/b/t1.proto";\nimport "x/a_b/t2.proto";\n'
                                         "message Top { x.a.b.T1 p = 1; x.a_b.T2 q = 2; }\n",
                                         "x/a/b/t1.proto": 'syntax = "proto3";\npackage x.a.b;\nmessage T1 { int32 v = 1; }\n',
